@@ -124,11 +124,16 @@ class Check:
     # ------------------------------------------------------------- finishing
     def finish(self):
         # instance floors (G-3)
+        # The floor given with each rule is the number of instances confirmed by hand on the pinned tree.  It is enforced at 60 %
+        # (at least 1): a refactoring that merges a few sites (a temporary instead of three reads, a loop over a table instead of
+        # four ifs) must not be reported, a rule that matches (almost) nothing must.
         for name, r in self.rules.items():
             definite = r["ok"] + r["bad"]
-            if definite < r["floor"]:
+            enforced = 0 if r["floor"] <= 0 else max(1, -(-r["floor"] * 6 // 10))
+            r["enforced_floor"] = enforced
+            if definite < enforced:
                 raise AnalysisError(
-                    f"rule {name}: {definite} definite instances found, floor is {r['floor']} "
+                    f"rule {name}: {definite} definite instances found, {r['floor']} were confirmed by hand (enforced floor {enforced}) "
                     f"(rule would pass vacuously; anchors moved?)")
         known = [k for k in load_known() if k.get("property") == self.pid]
         known_keys = {k["key"]: k for k in known}
